@@ -17,7 +17,7 @@ DISTRICT_POOL = ["1", "10", "2", "3"]
 def make_config(case):
     aggs = ["postal_code", "county_classification", "county_fips", "unit"]
     fes = ["postal_code", "county_fips", "county_classification"]
-    if case["office"] in ("H", "Y", "Z"):
+    if case["office"] in ("H", "Y", "Z") or any("district" in b for b in case["baseline"]):
         aggs = ["postal_code", "county_classification", "county_fips", "district", "unit"]
         fes = fes + ["district"]
     return {
@@ -46,7 +46,7 @@ def unit_id(unit_type, district, county, k):
     return f"{district}_{county}_{k}"
 
 
-def gen_election(rng, n_states=None, n_units=None, office=None, unit_type=None, with_district=None, tossup=False, n_districts=None):
+def gen_election(rng, n_states=None, n_units=None, office=None, unit_type=None, with_district=None, tossup=False, n_districts=None, extra_district=False):
     """baseline rows only"""
     if office is None:
         office = rng.choice(["S", "P", "H"]) if with_district is None else ("H" if with_district else rng.choice(["S", "P"]))
@@ -104,6 +104,15 @@ def gen_election(rng, n_states=None, n_units=None, office=None, unit_type=None, 
             if district:
                 row["district"] = d
             rows.append(row)
+    if extra_district and not district:
+        # a statewide office whose baseline also carries a district column (electoral votes by congressional district, say): the unit ids stay
+        # <county> / <county>_<precinct>, districts follow the counties
+        cd = {}
+        for row in rows:
+            key = (row["postal_code"], row["county_fips"])
+            if key not in cd:
+                cd[key] = rng.choice(["1", "2", "3"])
+            row["district"] = cd[key]
     return {"office": office, "unit_type": unit_type, "states": states, "baseline": rows}
 
 
@@ -378,7 +387,7 @@ def gen_params(rng, case, pi_method=None, estimands=None):
 
 
 def gen_case(rng, pi_method=None, threshold=None, **kw):
-    case = gen_election(rng, **{k: v for k, v in kw.items() if k in ("n_states", "n_units", "office", "unit_type", "with_district", "tossup", "n_districts")})
+    case = gen_election(rng, **{k: v for k, v in kw.items() if k in ("n_states", "n_units", "office", "unit_type", "with_district", "tossup", "n_districts", "extra_district")})
     params = gen_params(rng, case, pi_method=pi_method, estimands=kw.get("estimands"))
     if kw.get("aggregates") is not None:
         params["aggregates"] = list(kw["aggregates"])
